@@ -121,6 +121,10 @@ def check_problem(rec, comps, nc, rng, n_random=200, with_optimize=False, config
         except Exception as ex:
             out.append((f'C08/raises/compare/{method}/{type(ex).__name__}', f'{type(ex).__name__}: {ex}', dict(case0, method=method)))
             continue
+        # the fitters' pooling (rsatoolbox.util.pooling.pool_rdm) on the restricted data - NaN between copies of a
+        # condition is a common missing-entry mask: NanMean o Normalise with the V(sigma_k)-norm for whitened measures
+        if not interp_only:
+            out += check_fit_pool(data, method, sigma, case0)
         # competitors shared by both regression fitters: TLC's grid, random directions and their absolute values
         if not interp_only:
             nr_ = n_random if not sig else max(20, n_random // 5)       # whitened + sigma_k: one cg solve per competitor
@@ -172,6 +176,24 @@ def check_problem(rec, comps, nc, rng, n_random=200, with_optimize=False, config
                 out.append((_key('b' if nonneg else 'a', fname, method, sig, R, rep),
                             'a competing weight vector scores higher on the training data than the fitted one',
                             dict(case, theta=th.tolist(), score=s_fit, competitor=C[j].tolist(), competitor_score=float(s_c[j]))))
+            # ridge_weight > 0 (the property fixes ridge 0): structural post-conditions only - the penalty shrinks the
+            # unnormalised weights monotonically, and the non-negative fitter stays non-negative
+            if method in ('cosine', 'corr') or sig:
+                norms, neg = [float(np.sqrt(th_raw @ th_raw))], False
+                try:
+                    for rw in (0.5, 5.0, 50.0):
+                        t_ = np.asarray(fit(mw, data, method=method, pattern_idx=pidx, pattern_descriptor='index', sigma_k=sigma,
+                                            ridge_weight=rw, normalize=False), dtype=float)
+                        norms.append(float(np.sqrt(t_ @ t_)))
+                        neg = neg or (nonneg and bool(np.any(t_ < 0)))
+                    n_eval += 3
+                    if any(norms[i + 1] > norms[i] * (1 + 1e-9) + 1e-12 for i in range(3)):
+                        out.append((f'C08/ridge/{fname}/norm-not-monotone', 'a larger ridge weight gives larger unnormalised weights',
+                                    dict(case, ridge=[0, 0.5, 5, 50], norms=norms)))
+                    if neg:
+                        out.append((f'C08/ridge/{fname}/negative-weight', 'negative weight with ridge_weight > 0', case))
+                except Exception as ex:
+                    out.append((f'C08/raises/{fname}/{method}/ridge/{type(ex).__name__}', f'{type(ex).__name__}: {ex}', case))
             # exact optimal direction (one training RDM, plain measures, unconstrained)
             ex = rec['exact'].get('cos' if method == 'cosine' else 'corr') if method in ('cosine', 'corr') else None
             if ex and not nonneg and not sig:
@@ -282,11 +304,173 @@ def check_problem(rec, comps, nc, rng, n_random=200, with_optimize=False, config
                     nrm = float(np.sqrt(th @ th))
                     if nrm > 0 and abs(nrm - 1) > 1e-12:
                         out.append((f'C08/e/{fname}/not-unit-norm', f'|theta| = {nrm!r}', dict(case, theta=th.tolist())))
+                    if nonneg:
+                        # structural post-condition with a ridge penalty and without normalisation
+                        t_ = np.asarray(getattr(F, fname)(mw, data, method=method, pattern_idx=pidx, pattern_descriptor='index',
+                                                          ridge_weight=0.1, normalize=False), dtype=float)
+                        if t_.shape != (K,) or np.any(t_ < 0) or not np.all(np.isfinite(t_)):
+                            out.append((f'C08/ridge/{fname}/negative-weight', f'theta = {t_.tolist()} with ridge_weight = 0.1', case))
                 except Exception as ex_:
                     out.append((f'C08/raises/{fname}/{method}/{type(ex_).__name__}', f'{type(ex_).__name__}: {ex_}', case))
     # ---------------- f: what enters the fit
     out += check_deps(rec, nc, rng, mw, ms, mi, interp_only)
     return out, n_eval, stats
+
+
+def check_fit_pool(data, method, sigma, case0):
+    """rsatoolbox.util.pooling.pool_rdm(data, method, sigma_k) against NanMean o Normalise on the present entries"""
+    from rsatoolbox.util.pooling import pool_rdm
+    from harness.noiseceiling import whitening_v
+    out = []
+    X = np.asarray(data.get_vectors(), float)
+    ok = ~np.isnan(X[0])
+    try:
+        p = np.asarray(pool_rdm(data, method=method, sigma_k=sigma).get_vectors(), float)
+    except Exception as ex:
+        return [(f'C08/pool/{method}/raises/{type(ex).__name__}', f'{type(ex).__name__}: {ex}', dict(case0, method=method))]
+    if p.shape != (1, X.shape[1]) or not np.array_equal(np.isnan(p[0]), ~ok):
+        return [(f'C08/pool/{method}/nan-positions', 'pooled training RDM is not missing exactly the entries missing from all RDMs',
+                 dict(case0, method=method))]
+    Z = X[:, ok]
+    if method in ('corr', 'corr_cov'):
+        Z = Z - Z.mean(axis=1, keepdims=True)
+    if method in ('cosine', 'corr'):
+        nrm = np.sqrt(np.mean(Z ** 2, axis=1, keepdims=True))
+        tol = 1e-11
+    else:
+        V = whitening_v(data.n_cond, sigma)[np.ix_(ok, ok)]
+        nrm = np.sqrt(np.einsum('ij,ij->i', Z, np.linalg.solve(V, Z.T).T))[:, None]
+        tol = 1e-4
+    want = (Z / nrm).mean(axis=0)
+    got = p[0][ok]
+    if method in ('corr', 'corr_cov'):
+        want, got = want - want.min(), got - got.min()
+    if not np.allclose(got, want, rtol=0, atol=tol * max(1.0, np.abs(want).max())):
+        out.append((f"C08/pool/{method}/sigma_k-{'given' if sigma is not None else 'none'}/value",
+                    'the pooled training RDM differs from the mean of the normalised training RDMs',
+                    dict(case0, method=method, pooled=got.tolist(), spec=want.tolist())))
+    return out
+
+
+def check_family(rec, nc=4):
+    """rsatoolbox.model.ModelFamily: member index <-> subset of the component models"""
+    from rsatoolbox.model import ModelFixed, ModelWeighted
+    from rsatoolbox.model.model_family import ModelFamily
+    import rsatoolbox
+    out = []
+    n, i, sub = rec['n'], rec['i'], list(rec['subset'])
+    case = {'n': n, 'index': i - 1, 'subset': sub}
+    comps = []
+    for k in range(1, n + 1):
+        v = np.array([[float(S.tok(k, a, b, set())) for a in range(1, nc + 1) for b in range(a + 1, nc + 1)]])
+        comps.append(ModelFixed(f'm{k}', rsatoolbox.rdm.RDMs(v, pattern_descriptors={'index': np.arange(nc)})))
+    fam = ModelFamily(comps)
+    if fam.num_family_members != 2 ** n - 1 or len(fam.family_list) != 2 ** n - 1:
+        out.append(('C08/family/number-of-members', f'{fam.num_family_members} members for {n} components', case))
+        return out
+    got = [int(x) + 1 for x in fam.family_list[i - 1]]
+    if got != sub:
+        out.append(('C08/family/index-to-subset', 'family_list does not enumerate the subsets by size, then lexicographically',
+                    dict(case, got=got)))
+    if [int(x) for x in fam.model_indices[i - 1]] != list(rec['ind']):
+        out.append(('C08/family/model_indices', 'indicator row does not describe the member', dict(case, got=fam.model_indices[i - 1].tolist())))
+    mem = fam.get_family_member(i - 1)
+    if [m.name for m in mem] != [f'm{k}' for k in sub] or any(m is not comps[k - 1] for m, k in zip(mem, sub)):
+        out.append(('C08/family/get_family_member', 'the member does not consist of the component models of its subset',
+                    dict(case, got=[m.name for m in mem])))
+    allm = fam.get_all_family_members()
+    w = allm[i - 1]
+    rows = [int(round(r[0])) // 100 for r in np.atleast_2d(w.rdm)]
+    th = np.arange(1, len(sub) + 1, dtype=float)
+    want = sum(t * comps[k - 1].predict() for t, k in zip(th, sub))
+    if len(allm) != 2 ** n - 1 or not isinstance(w, ModelWeighted) or rows != sub or w.n_param != len(sub) or w.n_rdm != len(sub) \
+            or not np.array_equal(w.predict(th), want) or not np.array_equal(w.predict_rdm(th).get_vectors()[0], want) \
+            or w.name != ''.join(f'_m{k}' for k in sub):
+        out.append(('C08/family/get_all_family_members', 'the weighted member model is not built from the component RDMs of its subset',
+                    dict(case, rows=rows, n_param=int(w.n_param), name=w.name)))
+    return out
+
+
+def check_model(rec, nc):
+    """bookkeeping of the model classes (n_param, n_rdm, default fitter), predictions for theta = None,
+    to_dict / model_from_dict for every class incl. the base class, construction from arrays"""
+    import rsatoolbox.model as M
+    from rsatoolbox.model import fitter as F
+    from rsatoolbox.model import model_from_dict
+    from scipy.spatial.distance import squareform
+    out = []
+    basis, facts = rec['basis'], rec['facts']
+    K = len(basis)
+    B = basis_rdms(basis, nc)
+    case = {'basis': basis}
+    classes = {'w': ('ModelWeighted', B), 's': ('ModelSelect', B), 'i': ('ModelInterpolate', B), 'f': ('ModelFixed', B[0])}
+    for c, (cls, arg) in classes.items():
+        m = getattr(M, cls)('name_' + c, arg)
+        if m.n_param != facts['nparam'][c] or (c != 'f' and m.n_rdm != facts['nrdm']):
+            out.append((f'C08/model/{cls}/n_param', f'n_param = {m.n_param}, n_rdm = {getattr(m, "n_rdm", None)}', case))
+        if m.default_fitter is not getattr(F, facts['fitter'][c]):
+            out.append((f'C08/model/{cls}/default_fitter', f'default fitter is {getattr(m.default_fitter, "__name__", m.default_fitter)}', case))
+        d = m.to_dict()
+        m2 = model_from_dict(d)
+        same = type(m2) is type(m) and m2.name == m.name and m2.n_param == m.n_param and m2.default_fitter is m.default_fitter \
+            and getattr(m2, 'n_rdm', None) == getattr(m, 'n_rdm', None) \
+            and np.array_equal(m2.rdm_obj.get_vectors(), m.rdm_obj.get_vectors()) \
+            and all(list(m2.rdm_obj.pattern_descriptors[k]) == list(v) for k, v in m.rdm_obj.pattern_descriptors.items())
+        if not same:
+            out.append((f'C08/h/{cls}/from_dict-bookkeeping', 'model rebuilt from its dictionary differs (type, name, n_param, n_rdm, fitter, RDMs, descriptors)', case))
+        # theta = None
+        want = {'w': np.array(facts['defW'], float), 's': np.array(facts['defS'], float),
+                'i': np.array(facts['defI2'], float) / 2, 'f': np.array(basis[0], float)}[c]
+        if not np.array_equal(np.asarray(m.predict(), float), want):
+            out.append((f'C08/g/{cls}/default-predict', 'predict() without parameters is not the documented default', dict(case, got=np.asarray(m.predict()).tolist())))
+        if c != 'i' and not np.array_equal(m.predict_rdm().get_vectors()[0], want):       # 'i': open finding C08/g/ModelInterpolate/default-theta
+            out.append((f'C08/g/{cls}/default-predict_rdm', 'predict_rdm() without parameters is not the documented default', case))
+        # the same model from plain arrays (vectors, square matrices)
+        vec = np.array(basis, float) if c != 'f' else np.array(basis[0], float)
+        mats = np.array([squareform(v) for v in np.atleast_2d(vec)]) if c != 'f' else squareform(vec)
+        th = {'w': np.arange(1, K + 1, dtype=float), 's': K - 1, 'i': np.arange(1, K + 1, dtype=float), 'f': None}[c]
+        for how, arr in (('vectors', vec), ('matrices', mats)):
+            try:
+                ma = getattr(M, cls)('a', arr)
+                ok = np.array_equal(np.asarray(ma.predict(th), float), np.asarray(m.predict(th), float)) and \
+                    np.array_equal(ma.predict_rdm(th).get_vectors(), m.predict_rdm(th).get_vectors()) and \
+                    ma.n_param == m.n_param and int(ma.n_cond) == nc and ma.predict_rdm(th).n_cond == nc
+                if not ok:
+                    out.append((f'C08/model/{cls}/from-{how}', 'the model built from plain arrays predicts differently from the one built from RDMs', case))
+            except Exception as ex:
+                out.append((f'C08/model/{cls}/from-{how}/raises/{type(ex).__name__}', f'{type(ex).__name__}: {ex}', case))
+    # a fixed model defined by SEVERAL RDMs: the vector prediction is their mean; the RDM-object prediction must be that RDM too
+    mf = M.ModelFixed('fk', B)
+    pr = mf.predict_rdm().get_vectors()
+    if pr.shape[0] != 1 or not np.array_equal(pr[0], np.asarray(mf.predict(), float)):
+        out.append(('C08/g/ModelFixed/multi-rdm/predict-vs-predict_rdm',
+                    'ModelFixed built from several RDMs: predict() is their mean, predict_rdm() returns all of them',
+                    dict(case, predict=np.asarray(mf.predict()).tolist(), predict_rdm=pr.tolist())))
+    mb = M.Model('base')
+    m2 = model_from_dict(mb.to_dict())
+    if type(m2) is not M.Model or m2.name != 'base' or m2.n_param != 0 or m2.default_fitter is not F.fit_mock or mb.n_param != 0 \
+            or mb.default_fitter is not F.fit_mock:
+        out.append(('C08/h/Model/from_dict-bookkeeping', 'base Model does not survive to_dict / model_from_dict', case))
+    return out
+
+
+def record_family_trace(seed):
+    """one recorded ModelFamily session for Trace_Fitting.tla"""
+    from rsatoolbox.model import ModelFixed
+    from rsatoolbox.model.model_family import ModelFamily
+    import rsatoolbox
+    rng = np.random.default_rng(seed)
+    n, nc = int(rng.integers(1, 5)), 4
+    comps = [ModelFixed(f'm{k}', rsatoolbox.rdm.RDMs(np.array([[float(S.tok(k, a, b, set())) for a in range(1, nc + 1)
+                                                                 for b in range(a + 1, nc + 1)]]))) for k in range(1, n + 1)]
+    fam = ModelFamily(comps)
+    allm = fam.get_all_family_members()
+    evs = []
+    for i in sorted(set(int(x) for x in rng.integers(0, fam.num_family_members, size=4))):
+        w = allm[i]
+        evs.append({'n': n, 'i': i + 1, 'subset': [int(x) + 1 for x in fam.family_list[i]],
+                    'rows': [int(round(r[0])) // 100 for r in np.atleast_2d(w.rdm)], 'nparam': int(w.n_param)})
+    return {'hdr': {'K': n, 'fitter': 'family', 'method': '', 'R': 0, 'tol9': 0}, 'ev': evs}
 
 
 class FitTap:
